@@ -75,12 +75,16 @@ impl FeoxStore {
             }
         };
 
+        #[cfg(feature = "verif")]
+        crate::verif::point("replaced", 0, 0);
         if !self.memory_only {
             if self.enable_caching {
                 if let Some(ref cache) = self.cache {
                     cache.remove_for_record(&key_vec, &old_record_arc);
                 }
             }
+            #[cfg(feature = "verif")]
+            crate::verif::point("before_enqueue", 0, 0);
 
             if let Some(ref wb) = self.write_buffer {
                 wb.add_replacement(new_record, old_record_arc)?;
@@ -154,12 +158,16 @@ impl FeoxStore {
             }
         };
 
+        #[cfg(feature = "verif")]
+        crate::verif::point("replaced", 0, 0);
         if !self.memory_only {
             if self.enable_caching {
                 if let Some(ref cache) = self.cache {
                     cache.remove_for_record(&key_vec, &old_record_arc);
                 }
             }
+            #[cfg(feature = "verif")]
+            crate::verif::point("before_enqueue", 0, 0);
 
             if let Some(ref wb) = self.write_buffer {
                 wb.add_replacement(new_record, old_record_arc)?;
@@ -250,6 +258,8 @@ impl FeoxStore {
         };
 
         let record = retired;
+        #[cfg(feature = "verif")]
+        crate::verif::point("expired_retired", 0, 0);
         self.remove_cached(key, &record);
         if let Some(write_buffer) = self.write_buffer.as_ref() {
             write_buffer.add_write(Operation::Delete, record, 0)?;
